@@ -98,7 +98,9 @@ Section Inv5.
 
   (* nothing that existed at entry is ever written to *)
   Definition olds_same (s : fs) : Prop :=
-    f_next s0 <= f_next s /\ forall j, j < f_next s0 -> f_ino s j = f_ino s0 j.
+    f_next s0 <= f_next s /\ (forall j, j < f_next s0 -> f_ino s j = f_ino s0 j) /\
+    (* every other name of the directory is bound as at entry *)
+    (forall n, n <> dest -> n <> part -> f_dir s n = f_dir s0 n).
   Definition file_fresh (f : fstate) : Prop :=
     match f with FOpen p _ => f_next s0 <= p | _ => True end.
   Definition XB (s : fs) (f : fstate) : Prop := olds_same s /\ file_fresh f.
@@ -141,9 +143,16 @@ Section Inv5.
     Safe s f (scan_tr tr) /\ olds_same s /\ guardfact tr /\ FailCase s tr.
 
   (* ---- stability under the destination appearing ---- *)
-  Lemma olds_create s n cnt d m : olds_same s -> olds_same (fs_create s n cnt d m).
+  Lemma olds_create s n cnt d m : (n = dest \/ n = part) -> olds_same s -> olds_same (fs_create s n cnt d m).
   Proof.
-    intros (Hn & Hi). split; cbn; [lia|]. intros j Hj. rewrite upd_neq by lia. auto.
+    intros Hn' (Hn & Hi & Hd). split; [cbn; lia|]. split.
+    - intros j Hj. cbn. rewrite upd_neq by lia. auto.
+    - intros x Hx1 Hx2. cbn. rewrite upd_neq; [auto|]. destruct Hn'; congruence.
+  Qed.
+  Lemma olds_set_name s n o : (n = dest \/ n = part) -> olds_same s -> olds_same (set_name s n o).
+  Proof.
+    intros Hn' (Hn & Hi & Hd). split; [exact Hn|]. split; [exact Hi|].
+    intros x Hx1 Hx2. cbn. rewrite upd_neq; [auto|]. destruct Hn'; congruence.
   Qed.
   Lemma create_dest_keeps s cnt d m x : x <> dest -> f_dir (fs_create s dest cnt d m) x = f_dir s x.
   Proof. intro H. cbn. apply upd_neq. exact H. Qed.
@@ -151,20 +160,20 @@ Section Inv5.
   Lemma init1_stable : istableT c sched Y_init1.
   Proof.
     intros um s f tr k cnt m (Hu & Hi & (Ho & Hf) & Ht & Hp) Hn Hin.
-    split; [auto|]. split; [eapply init_stable; eauto|]. split; [split; [apply olds_create; auto|auto]|].
+    split; [auto|]. split; [eapply init_stable; eauto|]. split; [split; [apply olds_create; [left; reflexivity|auto]|auto]|].
     split; [auto|]. rewrite create_dest_keeps by congruence. exact Hp.
   Qed.
   Lemma init2_stable : istableT c sched Y_init2.
   Proof.
     intros um s f tr k cnt m (Hu & Hi & (Ho & Hf) & Hp) Hn Hin.
-    split; [auto|]. split; [eapply init_stable; eauto|]. split; [split; [apply olds_create; auto|auto]|].
+    split; [auto|]. split; [eapply init_stable; eauto|]. split; [split; [apply olds_create; [left; reflexivity|auto]|auto]|].
     rewrite create_dest_keeps by congruence. exact Hp.
   Qed.
   Lemma ours_stable (P : stage) G :
     istable c sched P -> (forall s f sc, P s f sc -> wf s) -> istableT c sched (Y_ours P G).
   Proof.
     intros HP Hwf um s f tr k cnt m (Hu & Hi & (Ho & Hf) & Hof & (p & Hp & Hpn & Hg)) Hn Hin.
-    split; [auto|]. split; [eapply HP; eauto|]. split; [split; [apply olds_create; auto|auto]|].
+    split; [auto|]. split; [eapply HP; eauto|]. split; [split; [apply olds_create; [left; reflexivity|auto]|auto]|].
     split; [auto|]. exists p. rewrite create_dest_keeps by congruence. split; [auto|]. split; [auto|].
     cbn. rewrite upd_neq; [exact Hg|]. apply (Hwf _ _ _ Hi) in Hp. lia.
   Qed.
@@ -173,7 +182,7 @@ Section Inv5.
   Lemma mid_stable : istableT c sched Y_mid.
   Proof.
     intros um s f tr k cnt m (Hu & Hi & (Ho & Hf) & Hof & Hg) Hn Hin.
-    split; [auto|]. split; [eapply safe_stable; eauto|]. split; [split; [apply olds_create; auto|auto]|]. auto.
+    split; [auto|]. split; [eapply safe_stable; eauto|]. split; [split; [apply olds_create; [left; reflexivity|auto]|auto]|]. auto.
   Qed.
 
   (* ---- generic preservation of the extras ---- *)
@@ -189,26 +198,28 @@ Section Inv5.
   Lemma XB_effect s f s' f' :
     XB s f ->
     f_next s' = f_next s ->
+    f_dir s' = f_dir s ->
     (forall j, (forall buf, f <> FOpen j buf) -> f_ino s' j = f_ino s j) ->
     (forall p b, f' = FOpen p b -> exists b0, f = FOpen p b0) ->
     XB s' f'.
   Proof.
-    intros ((Hn & Hi) & Hf) En Ei Ef. split; [split|].
+    intros ((Hn & Hi & Hd) & Hf) En Ed Ei Ef. split; [split; [|split]|].
     - rewrite En. exact Hn.
     - intros j Hj. rewrite Ei; [auto|]. intros buf ->. cbn in Hf. lia.
+    - intros n H1 H2. rewrite Ed. auto.
     - destruct f' as [|p b|]; cbn; auto. destruct (Ef p b eq_refl) as (b0 & ->). exact Hf.
   Qed.
 
   Lemma XB_file_event um e s f :
     file_event e -> XB s f -> XB (snd (fst (sem um e s f))) (snd (sem um e s f)).
   Proof.
-    intros He HX. destruct (sem_file_event um e s f He) as (_ & En & Ei & _ & Ef).
+    intros He HX. destruct (sem_file_event um e s f He) as (Ed & En & Ei & _ & Ef).
     eapply XB_effect; eauto.
   Qed.
   Lemma XB_after_fault um e s f :
     XB s f -> XB (fst (after_fault um e s f)) (snd (after_fault um e s f)).
   Proof.
-    intros HX. destruct (after_fault_effect um e s f) as (_ & En & Ei & _ & Ef).
+    intros HX. destruct (after_fault_effect um e s f) as (Ed & En & Ei & _ & Ef).
     eapply XB_effect; eauto.
   Qed.
 
@@ -254,9 +265,6 @@ Section Inv5.
   Lemma Hne5 : Nat.eqb part dest = false.
   Proof. apply Nat.eqb_neq. congruence. Qed.
 
-  Lemma olds_dir s d : olds_same s -> olds_same (mkFs d (f_ino s) (f_next s)).
-  Proof. intros H. exact H. Qed.
-
   Lemma unlink_failed_head x t : unlink_failed part ((EUnlink part, Some x) :: t) = true.
   Proof. unfold unlink_failed. cbn. now rewrite Nat.eqb_refl. Qed.
 
@@ -288,7 +296,7 @@ Section Inv5.
     - intros um s f tr (Hu & Hi & (Ho & Hf) & Ht & Hp).
       pose proof (sem_unlink_init c s0 sched Hdp um s f (scan_tr tr) Hi) as R.
       cbn [sem] in *. destruct (f_dir s part) eqn:E; cbn [fst snd] in *.
-      + split; [auto|]. split; [exact R|]. split; [split; [exact Ho|exact Hf]|].
+      + split; [auto|]. split; [exact R|]. split; [split; [apply olds_set_name; [right; reflexivity|exact Ho]|exact Hf]|].
         left. split; [|left; exact Howp]. cbn. apply upd_eq.
       + pose proof (init_any c s0 sched _ _ _ Hi) as Ha.
         split; [rewrite scan_tr_failed; left; exact Ha|]. split; [exact Ho|]. split.
@@ -307,7 +315,7 @@ Section Inv5.
       pose proof (sem_open c s0 sched Hdp Hpd perms um s f (scan_tr tr) Hi) as R.
       cbn [sem] in *. destruct (f_dir s part) eqn:E; cbn [fst snd] in *.
       + apply fail_of_init2. exact H.
-      + split; [auto|]. split; [exact R|]. split; [split; [apply olds_create; exact Ho|]|].
+      + split; [auto|]. split; [exact R|]. split; [split; [apply olds_create; [right; reflexivity|exact Ho]|]|].
         * cbn. apply Ho.
         * split.
           -- destruct Hp as [(_ & Hof) | (He & Hw)]; [exact Hof|]. right. congruence.
@@ -328,7 +336,7 @@ Section Inv5.
       pose proof (sem_chmod c s0 sched Hdp acc perms um s f (scan_tr tr) HP) as R.
       cbn [sem] in *. rewrite Hp in *. cbn [fst snd] in *.
       split; [auto|]. split; [exact R|]. split; [|split; [auto|]].
-      + destruct HX as ((Hn & Hi) & Hf). split; [split; [exact Hn|]|exact Hf].
+      + destruct HX as ((Hn & Hi & Hd) & Hf). split; [split; [exact Hn|split; [|exact Hd]]|exact Hf].
         intros j Hj. unfold set_mode. cbn [f_ino]. rewrite upd_neq by lia. auto.
       + exists p. unfold set_mode. cbn [f_dir f_ino]. rewrite upd_eq. cbn. auto.
   Qed.
@@ -344,7 +352,8 @@ Section Inv5.
     - intros um s f tr (Hu & HP & HX & Ho & (p & Hp & Hpn & Hg)).
       pose proof (sem_rename c s0 sched Hdp new um s f (scan_tr tr) HP) as R.
       cbn [sem] in *. rewrite Hp, Hne5 in *. cbn [fst snd] in *.
-      split; [auto|]. split; [exact R|]. split; [exact (proj1 HX)|]. split; [auto|].
+      split; [auto|]. split; [exact R|].
+      split; [apply olds_set_name; [right; reflexivity|]; apply olds_set_name; [left; reflexivity|exact (proj1 HX)]|]. split; [auto|].
       exists p. unfold set_name. cbn [f_dir f_ino]. rewrite upd_neq by congruence. rewrite upd_eq. auto.
   Qed.
 
@@ -360,7 +369,7 @@ Section Inv5.
       pose proof (sem_link c s0 sched new um s f (scan_tr tr) HP) as R.
       cbn [sem] in *. rewrite Hp in *. destruct (f_dir s dest) eqn:Ed; cbn [fst snd] in *.
       + apply any_mid; auto.
-      + split; [auto|]. split; [exact R|]. split; [exact (proj1 HX)|]. split; [auto|]. split.
+      + split; [auto|]. split; [exact R|]. split; [apply olds_set_name; [left; reflexivity|exact (proj1 HX)]|]. split; [auto|]. split.
         * exists p. unfold set_name. cbn [f_dir f_ino]. rewrite upd_neq by congruence. rewrite upd_eq. auto.
         * eexists. reflexivity.
   Qed.
@@ -377,7 +386,7 @@ Section Inv5.
     - intros um s f tr (Hu & HP & Ho & Hof & (p & Hp & Hd & Hg) & Htr).
       pose proof (post_sem c Hdp new um (EUnlink part) s f (scan_tr tr) eq_refl HP) as R.
       cbn [sem] in *. rewrite Hp in *. cbn [fst snd] in *.
-      split; [auto|]. split; [split; [exact R|cbn; apply upd_eq]|]. split; [exact Ho|]. split; [auto|].
+      split; [auto|]. split; [split; [exact R|cbn; apply upd_eq]|]. split; [apply olds_set_name; [right; reflexivity|exact Ho]|]. split; [auto|].
       exists p. unfold set_name. cbn [f_dir f_ino]. rewrite upd_neq by congruence. auto.
   Qed.
 
@@ -396,7 +405,8 @@ Section Inv5.
   Proof.
     intros Hw HX. destruct e; cbn in Hw; try contradiction;
       try (apply XB_file_event; [exact I|exact HX]).
-    subst n. cbn [sem]. destruct (f_dir s part); cbn [fst snd]; exact HX.
+    subst n. cbn [sem]. destruct (f_dir s part); cbn [fst snd]; [|exact HX].
+    destruct HX as (Ho & Hf). split; [apply olds_set_name; [right; reflexivity|exact Ho]|exact Hf].
   Qed.
 
   Lemma safe_weak_sem um e s f tr :
@@ -554,7 +564,7 @@ Section Inv5.
     split; [auto|]. split.
     - split; [|auto]. split; [exact Hwf0|]. split; [|exact I].
       unfold dest_old. destruct (f_dir s0 dest); auto.
-    - split; [split; [split; [lia|auto]|exact I]|]. auto.
+    - split; [split; [split; [lia|split; auto]|exact I]|]. auto.
   Qed.
 
   Lemma setup5 :
@@ -571,7 +581,7 @@ Section Inv5.
         rewrite Hs, Hf, Ht. split; [|split; [|split]].
         * left. split; [|auto]. split; [exact Hwf0|]. split; [|exact I].
           unfold dest_old. destruct (f_dir s0 dest); auto.
-        * split; [lia|auto].
+        * split; [lia|split; auto].
         * unfold guardfact. cbn. discriminate.
         * left. split; [auto|]. split; [auto|]. split; [auto|].
           rewrite Hde in E1. destruct (f_dir s0 dest); [discriminate|discriminate].
@@ -827,9 +837,9 @@ Lemma fault_partial_lemma c ops raises s0 umask sched o w :
       content_power (w_fs w) (c_dest c) = Some (new_content ops) /\
       f_dir (w_fs w) (c_part c) = None /\
       (exists m, mode_of (w_fs w) (c_dest c) = Some m /\ perms_ok_prop c s0 sched umask m) /\
-      OpenFact c s0 /\ olds_same s0 (w_fs w)
+      OpenFact c s0 /\ olds_same c s0 (w_fs w)
   | Exc _ =>
-      olds_same s0 (w_fs w) /\
+      olds_same c s0 (w_fs w) /\
       FailCase c s0 (w_fs w) (w_trace w) /\
       (link_then_unlink_failed (w_trace w) = false -> dest_old c s0 sched (w_fs w))
   end.
@@ -857,7 +867,7 @@ Proof.
   assert (Hno : ~ OpenFact c s0). { intros [A|A]; congruence. }
   destruct o as [x|e|]; [|  |contradiction].
   - destruct H as (_ & _ & _ & _ & Hof & _). contradiction.
-  - destruct H as ((_ & Hi) & Hf & _). split; [eauto|]. split; [|apply Hi; apply (Hwf _ _ Hj)].
+  - destruct H as ((_ & Hi & _) & Hf & _). split; [eauto|]. split; [|apply Hi; apply (Hwf _ _ Hj)].
     destruct Hf as [(Hs & _) | [(Hb & _) | [(_ & Hof) | [(Hb & _) | (Hof & _)]]]]; try contradiction.
     + rewrite Hs. exact Hj.
     + congruence.
